@@ -148,8 +148,11 @@ func ruleIndex0(scopeFiles ...string) func(c *Ctx) {
 		for _, fn := range c.SrcFuncs() {
 			// the wire-facing files, plus every function that decodes a binary payload handed in by a client
 			// (it calls encoding/binary: RESTORE)
+			// elsewhere: functions that take argument text as a string parameter and index it (parsers of an encoding,
+			// an offset specification): only accesses to that parameter are judged there
+			paramOnly := false
 			if !inScope(fnName(fn)) && !decodesBinary(fn) {
-				continue
+				paramOnly = true
 			}
 			n := 0
 			for _, in := range instrsOf(fn) {
@@ -185,6 +188,15 @@ func ruleIndex0(scopeFiles ...string) func(c *Ctx) {
 				if !isC {
 					continue
 				}
+				if paramOnly {
+					p, isParam := x.(*ssa.Parameter)
+					if !isParam {
+						continue
+					}
+					if b, ok := p.Type().Underlying().(*types.Basic); !ok || b.Info()&types.IsString == 0 {
+						continue
+					}
+				}
 				switch t := x.Type().Underlying().(type) {
 				case *types.Pointer:
 					if _, isArr := t.Elem().Underlying().(*types.Array); isArr {
@@ -203,12 +215,79 @@ func ruleIndex0(scopeFiles ...string) func(c *Ctx) {
 					c.S.Trivial("R-C13-index0", key, c.Pos(c.InstrPos(in)), "the indexed value has a statically known length")
 				case lenEstablished(x, k, in.Block()):
 					c.S.OK("R-C13-index0", key, c.Pos(c.InstrPos(in)), "dominated by a length test")
+				case prefixEstablished(x, k, in.Block(), 0):
+					c.S.OK("R-C13-index0", key, c.Pos(c.InstrPos(in)), "every way in passes a successful strings.HasPrefix with a long enough prefix")
 				default:
 					c.S.Bad("R-C13-index0", key, c.Pos(c.InstrPos(in)), fmt.Sprintf("%s indexes [%d] into a value whose length comes from the client without a dominating length test: an empty/short input panics with index out of range", fnName(fn), k))
 				}
 			}
 		}
 	}
+}
+
+// prefixEstablished: every way into blk passes the true side of strings.HasPrefix(x, "…") with a constant prefix longer
+// than k (so len(x) > k), directly or on each of the merged branches.
+func prefixEstablished(x ssa.Value, k int64, blk *ssa.BasicBlock, depth int) bool {
+	if depth > 4 {
+		return false
+	}
+	edgeOK := func(d, s *ssa.BasicBlock) bool {
+		ifi, ok := d.Instrs[len(d.Instrs)-1].(*ssa.If)
+		if !ok || len(d.Succs) != 2 || d.Succs[0] == d.Succs[1] {
+			return false
+		}
+		cond, neg := ifi.Cond, false
+		for {
+			u, ok := cond.(*ssa.UnOp)
+			if !ok || u.Op != token.NOT {
+				break
+			}
+			cond, neg = u.X, !neg
+		}
+		call, ok := cond.(*ssa.Call)
+		if !ok {
+			return false
+		}
+		g := call.Call.StaticCallee()
+		if g == nil || g.String() != "strings.HasPrefix" || len(call.Call.Args) != 2 || call.Call.Args[0] != x {
+			return false
+		}
+		cst, ok := call.Call.Args[1].(*ssa.Const)
+		if !ok || cst.Value == nil {
+			return false
+		}
+		plen := int64(len(cst.Value.ExactString()) - 2)
+		if plen <= k {
+			return false
+		}
+		trueSide := d.Succs[0] == s
+		return trueSide != neg
+	}
+	for b := blk; b != nil && b.Idom() != nil; b = b.Idom() {
+		d := b.Idom()
+		for _, s := range d.Succs {
+			if (s == b || s.Dominates(b)) && len(s.Preds) == 1 && edgeOK(d, s) {
+				return true
+			}
+		}
+	}
+	// a merge: every predecessor edge establishes it
+	if len(blk.Preds) < 2 {
+		return false
+	}
+	for _, p := range blk.Preds {
+		if edgeOK(p, blk) {
+			continue
+		}
+		if p.Dominates(blk) && p != blk && !blk.Dominates(p) && prefixEstablished(x, k, p, depth+1) {
+			continue
+		}
+		if !blk.Dominates(p) && prefixEstablished(x, k, p, depth+1) {
+			continue
+		}
+		return false
+	}
+	return true
 }
 
 // knownLen: statically known minimum length (literal slices, make with a constant, string constants, varargs packs).
